@@ -304,6 +304,14 @@ func init() {
 			sc.Split = split
 			out = append(out, sc)
 		}
+		for _, d := range []int{0, 1} {
+			sc := &h.Scn{Name: fmt.Sprintf("C08/dataout/d%d", d), Body: dataOutBody(), Opts: verifrt.Options{Bound: d, UseCache: true}}
+			sc.Weight = 6 * (1 + 1000*d*d)
+			if d > 0 {
+				sc.Split = 4
+			}
+			out = append(out, sc)
+		}
 		add("all", all, 0, 1)
 		add("small", small, 1, 16)
 		add("concurrent", conc, 1, 16)
